@@ -275,13 +275,13 @@ func litOracle(kind, v string) string {
 	if err != nil {
 		return "NOVM " + hxs(err.Error())
 	}
-	var msgs *memBundle
+	var msgs *jsMemBundle
 	if strings.HasPrefix(kind, "msg") {
 		// also through a translation bundle (identity): the text then comes from the bundle
 		msgs = translationsAll(reg)
 	}
 	for _, fm := range []string{"es5", "es6"} {
-		for _, mb := range []*memBundle{nil, msgs} {
+		for _, mb := range []*jsMemBundle{nil, msgs} {
 			if mb == nil && fm == "es6" && msgs != nil {
 				continue
 			}
@@ -340,8 +340,8 @@ func hasAstral(s string) bool {
 	return false
 }
 
-func translationsAll(reg *template.Registry) *memBundle {
-	b := &memBundle{msgs: map[uint64]*soymsg.Message{}, plural: pluralEnglish}
+func translationsAll(reg *template.Registry) *jsMemBundle {
+	b := &jsMemBundle{msgs: map[uint64]*soymsg.Message{}, plural: pluralEnglish}
 	for _, m := range allMsgNodes(reg) {
 		b.msgs[m.ID] = &soymsg.Message{ID: m.ID, Parts: identityParts(m.Body.Children())}
 	}
